@@ -12,7 +12,7 @@
 #endif
 #define TKMAX NTOK
 static uint8_t TK_on[TKMAX], TK_tlen[TKMAX], TK_vlen[TKMAX], TK_tag[TKMAX][5], TK_val[TKMAX][7]; static uint32_t TK_num[TKMAX], TK_off[TKMAX], TK_w[TKMAX];
-static int TK_n, TK_bad; static uint32_t TK_len;
+static int TK_n, TK_bad; static uint32_t TK_len; static uint8_t TK_isdata[TKMAX];   /* data tokens: value is raw bytes (may hold SOH): only the fixed-width extractor may read them */
 /* tlen/vlen may be symbolic only if tlen + vlen is the same for every choice (fixed token width) */
 static void TK_add(int on, uint32_t num, const uint8_t *tag, uint8_t tlen, const uint8_t *val, uint8_t vlen, uint32_t width)
 {
@@ -49,11 +49,12 @@ uint32_t st_extract_element(void *fromv, uint32_t sz, void *tagv, void *valv)
   uint32_t off = (uint32_t)(from - W_buf);
   if (sz == 0) { *tag = 0; *val = 0; return 0; }
   for (int k = 0; k < TKMAX; k++) if (k < TK_n && TK_on[k] && TK_off[k] == off) {
+    if (TK_isdata[k]) { TK_bad = 1; __CPROVER_assert(0, "the byte tokenizer is never applied to a length-prefixed value"); __CPROVER_assume(0); }      /* the byte tokenizer applied to a length-prefixed value: outside the cut's contract, reported by the harness */
     if (TK_w[k] > sz) { TK_bad = 1; return 0; }                 /* never the case: every token ends inside the region it is read from */
     for (int j = 0; j < 6; j++) tag[j] = (j < 5 && j < TK_tlen[k]) ? TK_tag[k][j] : 0;     /* text + terminator (bytes after the terminator are never read) */
     for (int j = 0; j < 8; j++) val[j] = (j < 7 && j < TK_vlen[k]) ? TK_val[k][j] : 0;
     return TK_w[k];
   }
-  TK_bad = 1; __CPROVER_assume(0); return 0;                     /* the decoder asked for a token at a position where none starts */
+  TK_bad = 1; __CPROVER_assert(0, "the decoder asks for tokens only at token boundaries"); __CPROVER_assume(0); return 0;                     /* the decoder asked for a token at a position where none starts */
 }
 #endif
